@@ -726,8 +726,331 @@ theorem notify_only_after_signing (F : Facts) (c : Config) (q : Req) (res : Resu
 /-- A challenge webhook that refuses, followed by a notification webhook that would answer
     "allow": the request is refused and neither is the notification webhook consulted. -/
 example : pkiOperationP asCoded
-    (initN 2 (Prov.new { secret := [], hooks := [⟨.scep, .x509, .deny⟩, ⟨.notify, .x509, .allow⟩] }))
+    (initN 2 (Prov.new { secret := [], hooks := [⟨.scep, .x509, .deny, .deny⟩, ⟨.notify, .x509, .allow, .allow⟩] }))
     { d4Req with mt := some tPKCSReq }
     = .val { out := .reply failureReply, hookCalls := 1, stored := 0, notifyCalls := 0 } := by decide
+
+end Verif.SCEP
+
+namespace Verif.SCEP
+open Verif
+
+/-! ## 6. the HTTP layer: routes, operations, key selection, GetCACert / GetCACaps -/
+
+theorem finishPki_carries (S : Server) (p : Prov) (r : Result)
+    (hc : (finishPki S p r).carriesCert = true) : r.carriesCert = true := by
+  unfold finishPki Served.carriesCert pkiOut at hc
+  unfold Result.carriesCert
+  cases ho : r.out with
+  | http500 => simpa [ho] using hc
+  | reply rp =>
+    simp only [ho] at hc ⊢
+    cases hs : selectPair S.provPair S.dfltSigner with
+    | none => simp [hs] at hc; simp [hc]
+    | some w => simpa [hs] using hc
+
+/-- A certificate comes only out of the PKI operation: the request matched a route, named a SCEP
+    provisioner, was dispatched to `operation=PKIOperation`, and the PKI operation itself (run with
+    the selected decrypter) produced it. -/
+theorem cert_only_via_pki (F : Facts) (R : List RouteEntry) (S : Server) (p : Prov) (h : HttpReq) (q : Req)
+    (sv : Served) (hrun : serve F R S p h q = .val sv) (hc : sv.carriesCert = true) :
+    (∃ hd, routeOf R h.meth h.path = .handler hd ∧ dispatchOp hd h = some .pki) ∧
+    h.lookup = .scep ∧
+    ∃ res, pkiOperationP F p (withSelectedDecrypter S h q) = .val res ∧ res.carriesCert = true := by
+  unfold serve at hrun
+  split at hrun
+  · simp at hrun; subst hrun; simp [Served.plain, Served.carriesCert] at hc
+  · simp at hrun; subst hrun; simp [Served.plain, Served.carriesCert] at hc
+  · rename_i hd hroute
+    split at hrun
+    · simp at hrun; subst hrun; simp [Served.plain, Served.carriesCert] at hc
+    · rename_i hlook
+      split at hrun
+      · simp at hrun; subst hrun
+        unfold caCertAnswer at hc
+        split at hc <;> simp [Served.plain, Served.carriesCert] at hc
+      · simp at hrun; subst hrun; simp [Served.plain, Served.carriesCert] at hc
+      · rename_i hop
+        refine ⟨⟨hd, hroute, hop⟩, by simpa using hlook, ?_⟩
+        split at hrun
+        · simp at hrun
+        · rename_i r hr
+          simp at hrun; subst hrun
+          exact ⟨r, hr, finishPki_carries S p r hc⟩
+      · simp at hrun; subst hrun; simp [Served.plain, Served.carriesCert] at hc
+
+/-- **`challenge_required` at the HTTP boundary**: for every method, path, operation, provisioner
+    lookup result, key-pair configuration of provisioner and authority, number of Inits, message
+    type, challenge and webhook behaviour (retries included): if a secret or a challenge webhook is
+    configured, an answer or database entry carrying a certificate implies that the configured secret
+    or configured challenge webhooks accepted the request's challenge. -/
+theorem challenge_required_http (R : List RouteEntry) (S : Server) (n : Nat) (c : Config) (h : HttpReq)
+    (q : Req) (sv : Served) (hm : selectValidationMethod c ≠ .none)
+    (hrun : serve asCoded R S (initN (n + 1) (Prov.new c)) h q = .val sv)
+    (hc : sv.carriesCert = true) : Accepted c q := by
+  obtain ⟨_, _, res, hres, hcc⟩ := cert_only_via_pki asCoded R S _ h q sv hrun hc
+  exact challenge_required_any_inits n c (withSelectedDecrypter S h q) res hm hres hcc
+
+/-- No HTTP request aborts the handlers. -/
+theorem no_crash_http (R : List RouteEntry) (S : Server) (n : Nat) (c : Config) (h : HttpReq) (q : Req) :
+    serve asCoded R S (initN (n + 1) (Prov.new c)) h q ≠ .crash := by
+  unfold serve
+  split
+  · simp
+  · simp
+  · split
+    · simp
+    · split
+      · simp
+      · simp
+      · have hnc := no_crash_on_type c (withSelectedDecrypter S h q)
+        rw [← pkiOperationP_initialised asCoded n c] at hnc
+        split
+        · rename_i hcr; exact absurd hcr hnc
+        · simp
+      · simp
+
+/-- With the route table as coded: only GET and POST reach a handler (HEAD is routed to `Get`, which
+    refuses the method), only below "/scep/{name}", and `Post` serves nothing but the PKI operation. -/
+theorem dispatch_as_coded (h : HttpReq) (hd : HandlerId) (op : Op)
+    (hr : routeOf routesAsCoded h.meth h.path = .handler hd) (hop : dispatchOp hd h = some op) :
+    h.path ≠ .root ∧ h.queryOk = true ∧ op = h.op ∧
+    ((h.meth = .get ∧ hd = .get ∧ (op = .caCert ∨ op = .caCaps ∨ op = .pki)) ∨
+     (h.meth = .post ∧ hd = .post ∧ op = .pki)) := by
+  obtain ⟨meth, path, lookup, queryOk, o, dp, dd⟩ := h
+  cases meth <;> cases path <;> cases hd <;> cases queryOk <;> cases o <;>
+    simp [routeOf, routesAsCoded, RouteEntry.matchesPath, dispatchOp] at hr hop ⊢ <;>
+    (try (subst hop; simp))
+
+/-- The shape of a reply to the PKI operation: signed with the provisioner's own key pair exactly
+    when the provisioner has both certificate and key, otherwise with the authority's; and the request
+    was decrypted with the pair of the same owner when the authority's two pairs are both complete. -/
+theorem reply_signed_by_selected (F : Facts) (R : List RouteEntry) (S : Server) (p : Prov) (h : HttpReq)
+    (q : Req) (sv : Served) (rp : Reply) (w : Which)
+    (hrun : serve F R S p h q = .val sv) (hout : sv.out = .pkiReply rp w) :
+    selectPair S.provPair S.dfltSigner = some w ∧
+    (w = .prov ↔ (S.provPair.cert = true ∧ S.provPair.key = true)) ∧
+    (selectPair S.provPair S.dfltDecrypter = some .prov ↔ w = .prov) := by
+  have hsel : selectPair S.provPair S.dfltSigner = some w := by
+    unfold serve at hrun
+    split at hrun
+    · simp at hrun; subst hrun; simp [Served.plain] at hout
+    · simp at hrun; subst hrun; simp [Served.plain] at hout
+    · split at hrun
+      · simp at hrun; subst hrun; simp [Served.plain] at hout
+      · split at hrun
+        · simp at hrun; subst hrun
+          unfold caCertAnswer at hout
+          split at hout <;> simp [Served.plain] at hout
+        · simp at hrun; subst hrun; simp [Served.plain] at hout
+        · split at hrun
+          · simp at hrun
+          · rename_i r hr
+            simp at hrun; subst hrun
+            simp only [finishPki, pkiOut] at hout
+            cases ho : r.out with
+            | http500 => simp [ho] at hout
+            | reply rp' =>
+              simp only [ho] at hout
+              cases hs : selectPair S.provPair S.dfltSigner with
+              | none => simp [hs] at hout
+              | some w' => simp [hs] at hout; rw [hout.2]
+        · simp at hrun; subst hrun; simp [Served.plain] at hout
+  refine ⟨hsel, ?_, ?_⟩
+  · unfold selectPair at hsel
+    cases hc : S.provPair.cert <;> cases hk : S.provPair.key <;> simp [hc, hk] at hsel ⊢
+    · intro e; rw [e] at hsel; cases hsel.2
+    · exact hsel.symm
+  · unfold selectPair at hsel ⊢
+    cases hc : S.provPair.cert <;> cases hk : S.provPair.key <;> simp [hc, hk] at hsel ⊢
+    · intro e; rw [e] at hsel; cases hsel.2
+    · exact hsel.symm
+
+/-- **The decrypter is the advertised one**: whenever a decrypter is selected, its certificate is
+    the first certificate `GetCACert` returns (the one an RFC 8894 client encrypts to), provided the
+    authority has an intermediate (its default decrypter certificate). -/
+theorem decrypter_is_advertised (S : Server) (w : Which)
+    (hsel : selectPair S.provPair S.dfltDecrypter = some w) (hint : S.nInter > 0) :
+    (caCertificates S).head? = some (tagOf w) := by
+  unfold selectPair at hsel
+  unfold caCertificates
+  cases hc : S.provPair.cert <;> cases hk : S.provPair.key <;> simp [hc, hk] at hsel
+  · obtain ⟨_, hsel⟩ := hsel
+    subst hsel
+    obtain ⟨k, hk'⟩ : ∃ k, S.nInter = k + 1 := ⟨S.nInter - 1, by omega⟩
+    simp [tagOf, hk', List.range_succ_eq_map]
+    split <;> simp
+  · subst hsel
+    simp [tagOf]
+    split <;> split <;> simp
+
+/-- `GetCACert`: a single certificate is sent raw, several as a degenerate PKCS#7; never an empty
+    answer; the provisioner's decrypter certificate, when there is one, comes first and the roots only
+    when asked for. -/
+theorem cacert_shape (F : Facts) (R : List RouteEntry) (S : Server) (p : Prov) (h : HttpReq) (q : Req)
+    (sv : Served) (ra : Bool) (certs : List CertTag)
+    (hrun : serve F R S p h q = .val sv) (hout : sv.out = .caCert ra certs) :
+    certs = caCertificates S ∧ certs ≠ [] ∧ (ra = true ↔ certs.length > 1) ∧
+    sv.stored = 0 ∧ sv.hookCalls = 0 ∧
+    (S.includeRoot = false → ∀ i, CertTag.root i ∉ certs) := by
+  have hroots : S.includeRoot = false → ∀ i, CertTag.root i ∉ caCertificates S := by
+    intro hr i
+    unfold caCertificates
+    simp [hr]
+    split <;> split <;> simp
+  unfold serve at hrun
+  split at hrun
+  · simp at hrun; subst hrun; simp [Served.plain] at hout
+  · simp at hrun; subst hrun; simp [Served.plain] at hout
+  · split at hrun
+    · simp at hrun; subst hrun; simp [Served.plain] at hout
+    · split at hrun
+      · simp at hrun; subst hrun
+        unfold caCertAnswer at hout ⊢
+        split at hout
+        · simp [Served.plain] at hout
+        · rename_i hne
+          simp [Served.plain] at hout
+          obtain ⟨h1, h2⟩ := hout
+          subst h2
+          simp only [hne]
+          refine ⟨trivial, by simpa using hne, ?_, rfl, rfl, hroots⟩
+          rw [← h1]; simp
+      · simp at hrun; subst hrun; simp [Served.plain] at hout
+      · split at hrun
+        · simp at hrun
+        · rename_i r hr
+          simp at hrun; subst hrun
+          simp only [finishPki, pkiOut] at hout
+          cases ho : r.out with
+          | http500 => simp [ho] at hout
+          | reply rp' =>
+            simp only [ho] at hout
+            cases hs : selectPair S.provPair S.dfltSigner <;> simp [hs] at hout
+      · simp at hrun; subst hrun; simp [Served.plain] at hout
+
+/-- `GetCACaps`: the configured capabilities, or the default list when none are configured. -/
+theorem cacaps_shape (S : Server) :
+    (S.caps = [] → caCaps S = defaultCapabilities) ∧ (S.caps ≠ [] → caCaps S = S.caps) := by
+  unfold caCaps
+  constructor
+  · intro h; simp [h]
+  · intro h
+    cases hc : S.caps with
+    | nil => exact absurd hc h
+    | cons x xs => simp
+
+/-! ### webhook retries -/
+
+/-- `DoWithContext`: the webhook's verdict is "allow" exactly when the first exchange says so, or the
+    first exchange ended in a 5xx and the retry says so; a second 5xx, any 4xx and any undecodable
+    body are errors; never more than two requests, and a second one only after a 5xx. -/
+theorem webhook_retry (h : Hook) :
+    (h.res = .allow ↔ (h.first = .allow ∨ (h.first = .s5xx ∧ h.second = .allow))) ∧
+    (h.res = .deny ↔ (h.first = .deny ∨ (h.first = .s5xx ∧ h.second = .deny))) ∧
+    1 ≤ h.tries ∧ h.tries ≤ 2 ∧ (h.tries = 2 ↔ h.first = .s5xx) := by
+  obtain ⟨k, ct, f, s2⟩ := h
+  cases f <;> cases s2 <;> simp [Hook.res, Hook.tries, doWebhook]
+
+/-- The HTTP requests of a validation: at least one and at most two per webhook consulted. -/
+theorem hooksHttp_bounds (hs : List Hook) (a n : Nat) (o : Option Nat) (m : Nat)
+    (hr : runHooks hs a n = (o, m)) : m - n ≤ hooksHttp hs ∧ hooksHttp hs ≤ 2 * (m - n) ∧ n ≤ m := by
+  induction hs generalizing a n with
+  | nil => simp [runHooks] at hr; simp [hooksHttp, hr.2]
+  | cons x xs ih =>
+    have ht := (webhook_retry x).2.2
+    unfold runHooks at hr
+    unfold hooksHttp
+    cases hx : x.res <;> simp [hx] at hr ⊢
+    · have := ih _ _ hr; omega
+    · have := ih _ _ hr; omega
+    · omega
+
+/-- A webhook that first answers 503 and then "allow" accepts the challenge with two requests; two
+    503s refuse it. -/
+example :
+    validateChallenge { secret := [], hooks := [⟨.scep, .x509, .s5xx, .allow⟩] } [] = (true, 1) ∧
+    hooksHttp [⟨.scep, .x509, .s5xx, .allow⟩] = 2 ∧
+    validateChallenge { secret := [], hooks := [⟨.scep, .x509, .s5xx, .s5xx⟩] } [] = (false, 1) := by decide
+
+/-- The HTTP theorems are about real runs: a GET PKIOperation on "/scep/name" with the right
+    challenge is answered with a certificate signed by the provisioner's own key pair. -/
+def exServer : Server :=
+  { provPair := ⟨true, true⟩, dfltDecrypter := ⟨true, false⟩, dfltSigner := ⟨true, true⟩, nInter := 1, nRoots := 1,
+    excludeIntermediate := false, includeRoot := false, caps := [] }
+def exHttp : HttpReq :=
+  { meth := .get, path := .name, lookup := .scep, queryOk := true, op := .pki, decProv := true, decDflt := false }
+
+example : serve asCoded routesAsCoded exServer (initN 1 (Prov.new d4Config)) exHttp
+      { d4Req with mt := some tPKCSReq, cp := d4Config.secret, decOk := false } =
+    .val { out := .pkiReply (successReply d4Req) .prov, hookCalls := 0, hookHttp := 0, stored := 1, notifyCalls := 0 } := by
+  decide
+
+example : serve asCoded routesAsCoded exServer (initN 1 (Prov.new d4Config)) { exHttp with op := .caCert } d4Req =
+    .val (.plain (.caCert true [.provDecrypter, .inter 0])) := by decide
+
+end Verif.SCEP
+
+namespace Verif.SCEP
+open Verif
+
+/-! ## 7. the names of the issued certificate -/
+
+/-- Every name of the issued certificate is a name the CSR carried: each subject alternative name
+    is one of the CSR's SANs (or, for a CSR without SANs, its common name) and none of those is left
+    out; the subject common name is the CSR's, or — only with `forceCN` and an empty common name — the
+    first DNS name. -/
+theorem issued_names_from_csr (forceCN : Bool) (n : CsrNames) (c : Issued) (h : issue forceCN n = some c) :
+    (∀ x, x ∈ c.dns ++ c.emails ++ c.ips ++ c.uris ↔ ∃ k, (k, x) ∈ templateSans n) ∧
+    (∀ k x, (k, x) ∈ templateSans n → (n.sans ≠ [] ∧ (k, x) ∈ n.sans) ∨ (n.sans = [] ∧ x = n.cn)) ∧
+    (c.cn = n.cn ∨ (forceCN = true ∧ n.cn = [] ∧ c.dns.head? = some c.cn)) := by
+  unfold issue at h
+  simp only [Option.map_eq_some_iff] at h
+  obtain ⟨cn, hcn, rfl⟩ := h
+  refine ⟨?_, ?_, ?_⟩
+  · intro x
+    simp only [ofKind, List.mem_append, List.mem_map, List.mem_filter, beq_iff_eq]
+    constructor
+    · rintro (((⟨⟨k, y⟩, ⟨hm, _⟩, rfl⟩ | ⟨⟨k, y⟩, ⟨hm, _⟩, rfl⟩) | ⟨⟨k, y⟩, ⟨hm, _⟩, rfl⟩) | ⟨⟨k, y⟩, ⟨hm, _⟩, rfl⟩) <;>
+        exact ⟨k, hm⟩
+    · rintro ⟨k, hm⟩
+      cases k
+      · exact .inl (.inl (.inl ⟨(.dns, x), ⟨hm, rfl⟩, rfl⟩))
+      · exact .inl (.inl (.inr ⟨(.email, x), ⟨hm, rfl⟩, rfl⟩))
+      · exact .inl (.inr ⟨(.ip, x), ⟨hm, rfl⟩, rfl⟩)
+      · exact .inr ⟨(.uri, x), ⟨hm, rfl⟩, rfl⟩
+  · intro k x hm
+    unfold templateSans at hm
+    split at hm
+    · rename_i he
+      simp at hm
+      exact .inr ⟨by simpa using he, hm.2⟩
+    · rename_i he
+      exact .inl ⟨by simpa using he, hm⟩
+  · split at hcn
+    · rename_i hf
+      simp only [Bool.and_eq_true, List.isEmpty_iff] at hf
+      exact .inr ⟨hf.1, hf.2, hcn⟩
+    · simp at hcn; exact .inl hcn.symm
+
+/-- `forceCN` refuses exactly the CSR with an empty common name and no DNS name. -/
+theorem issue_refuses_iff (forceCN : Bool) (n : CsrNames) :
+    issue forceCN n = none ↔ (forceCN = true ∧ n.cn = [] ∧ ofKind .dns (templateSans n) = []) := by
+  unfold issue
+  simp only [Option.map_eq_none_iff]
+  split
+  · rename_i hf
+    simp only [Bool.and_eq_true, List.isEmpty_iff] at hf
+    simp [hf.1, hf.2, List.head?_eq_none_iff]
+  · rename_i hf
+    simp only [Bool.and_eq_true, List.isEmpty_iff, not_and] at hf
+    simp
+    intro h1 h2
+    exact absurd h2 (hf h1)
+
+/-- a CSR whose DNS name parses as an IP address: the certificate carries it as an IP address, and
+    still no name the CSR did not carry -/
+example : issue false { cn := s "dev", sans := [(.ip, s "192.0.2.7"), (.dns, s "a.example")], cnKind := .dns } =
+    some { cn := s "dev", dns := [s "a.example"], emails := [], ips := [s "192.0.2.7"], uris := [] } := by decide
 
 end Verif.SCEP
